@@ -53,6 +53,9 @@ def run(chk):
         meta = {"ref": ref, "qs": qs, "k": k}
         b.add("symdel2-ham|" + label, lambda: nn.symdel(ref, max_edits=k, custom_distance="hamming", seqs2=qs), mop, sop, meta)
         b.add("SymdelDB.lookup-ham|" + label, lambda: nn.SymdelDB(ref, k).lookup(qs, custom_distance="hamming"), None, sop, meta)
+        # the wrapper with the second collection (by keyword, and with every argument given positionally)
+        b.add("nearest_neighbor2-ham|" + label, lambda: nn.nearest_neighbor(ref, max_edits=k, custom_distance="hamming", seqs2=qs), None, sop, meta)
+        b.add("nearest_neighbor2-positional-ham|" + label, lambda: nn.nearest_neighbor(ref, k, None, 1, "hamming", float("inf"), "triplets", qs), None, sop, meta)
 
     # all interleavings of small mixed-length multisets
     bases = [["CAAAD", "CAAA", "CADA", "CAAAE"], ["AC", "A", "AD", "C", "CC"], ["", "A", "C", "AC", "AD"],
